@@ -71,7 +71,7 @@ type Result struct {
 	Prop         string           `json:"prop"`
 	Cases        int              `json:"cases"`
 	Evaluations  int64            `json:"evaluations"`
-	Distinct     []uint64         `json:"distinct"`    // hashes of distinct non-trivial keys
+	Distinct     []uint64         `json:"distinct"`     // hashes of distinct non-trivial keys
 	DistinctAll  int              `json:"distinct_all"` // number of distinct keys incl. trivial
 	Counters     map[string]int64 `json:"counters"`
 	Samples      []any            `json:"samples"`
@@ -257,8 +257,8 @@ func (r *Rand) N(n int) int {
 	}
 	return int(r.U64() % uint64(n))
 }
-func (r *Rand) Bool() bool    { return r.U64()&1 == 1 }
-func (r *Rand) F64() float64  { return float64(r.U64()>>11) / float64(1<<53) }
+func (r *Rand) Bool() bool             { return r.U64()&1 == 1 }
+func (r *Rand) F64() float64           { return float64(r.U64()>>11) / float64(1<<53) }
 func (r *Rand) Sub(parts ...any) *Rand { return NewRand(append([]any{r.key, "/"}, parts...)...) }
 func (r *Rand) Perm(n int) []int {
 	p := make([]int, n)
